@@ -8,6 +8,7 @@ INVARIANT DistOK
 INVARIANT SlackOK
 INVARIANT DistValidOK
 INVARIANT EntangleOK
+INVARIANT BirthdayOK
 INVARIANT FairOK
 INVARIANT ResampleOK
 INVARIANT Drift_RandomPair
